@@ -50,8 +50,13 @@ import (
 // failing_test… functions of exactly those files, files in name order, functions in
 // source order. Both outputs of test_gen must list exactly them, agree with each
 // other, mark the failing ones, and the -go output must compile next to the package.
-// Constraints that mention the tag `goose` itself are only noted (the Go test is
-// compiled without that tag, the Coq test refers to a translation made with it).
+// The two outputs live under two tag sets — the Go test is compiled without the tag
+// `goose`, the Coq test refers to a translation made with it — and the statement wants
+// one Go AND one Coq test per test function: a file belongs to the package, for this
+// purpose, if `go list` reports it among the GoFiles both without and with `-tags
+// goose`. A file selected under one of the two only (`//go:build goose`, `!goose`,
+// combinations, `// +build` forms, with a file-name constraint) contributes no test
+// to either output (class selected-under-one-tag-set-only).
 
 const (
 	c18ShapeSig = "text-shape/"
@@ -84,6 +89,8 @@ type c18FamCase struct {
 	pend    []c18Pend
 	// constrained files whose test list already differs: a compile error naming their functions adds nothing
 	explained map[string]bool
+	// files the go tool selects under one of the two tag sets (default, goose) only
+	oneSide map[string]string
 }
 
 // ------------------------------------------------------------------ text shapes
@@ -394,8 +401,12 @@ func c18BCSpecs() []c18BCSpec {
 		{mech: "go-build-line+file-name", class: "contradicting", header: "//go:build !" + os1 + "\n\n", suffix: "_" + os1},
 		{mech: "go-build-line+file-name", class: "contradicting", header: "//go:build " + os1 + "\n\n", suffix: "_" + os2},
 		{mech: "go-build-line+file-name", class: "agreeing", header: "//go:build go1.18\n\n", suffix: "_" + os1},
-		{mech: "go-build-line", class: "goose-tag", header: "//go:build goose\n\n", noted: true},
-		{mech: "go-build-line", class: "goose-tag", header: "//go:build !goose\n\n", noted: true},
+		// the tag the two outputs disagree about: the Go test is compiled without it, goose translates with it
+		gb("goose-tag", "goose"), gb("goose-tag", "!goose"), gb("goose-tag", "goose && "+os1), gb("goose-tag", "goose || ignore"), gb("goose-tag", "!goose && gc"), gb("goose-tag", "!(goose || "+os2+")"),
+		gb("goose-tag", "goose || gc"), gb("goose-tag", "!goose || !ignore"), gb("goose-tag", "goose && ignore"),
+		pb("goose-tag", "goose"), pb("goose-tag", "!goose"), pb("goose-tag", "goose "+os1),
+		{mech: "go-build-line+file-name", class: "goose-tag", header: "//go:build goose\n\n", suffix: "_" + os1},
+		{mech: "go-build-line+file-name", class: "goose-tag", header: "//go:build !goose\n\n", suffix: "_" + os2},
 	}
 	return specs
 }
@@ -552,6 +563,32 @@ func c18ShapeAndBuildFamilies(r *core.Run, tg string, only string) {
 		ll := l
 		byDir[l.Dir] = &ll
 	}
+	// the same without the tag: the generated Go test is compiled that way
+	resD := core.Exec(mod, core.GoEnv(), 5*time.Minute, "", "go", "list", "-e", "-json=Dir,GoFiles,Error,Incomplete", "./...")
+	r.Count("shape_and_build_go_list_runs", 1)
+	if resD.TimedOut || resD.Code != 0 {
+		r.Inconclusive("shape-build-go-list-failed")
+		fmt.Fprintln(os.Stderr, "C18 shape/build families: go list (default tags):", resD.Code, firstLine(resD.Stderr))
+		return
+	}
+	defaultFiles := map[string]map[string]bool{}
+	decD := json.NewDecoder(strings.NewReader(resD.Stdout))
+	for {
+		var l listed
+		if err := decD.Decode(&l); err == io.EOF {
+			break
+		} else if err != nil {
+			r.Inconclusive("shape-build-go-list-unparsable")
+			return
+		}
+		m := map[string]bool{}
+		if l.Error == nil && !l.Incomplete {
+			for _, f := range l.GoFiles {
+				m[f] = true
+			}
+		}
+		defaultFiles[l.Dir] = m
+	}
 	selection := map[string]string{} // constraint → what go list did with the file
 	for _, c := range cases {
 		if c.skip != "" {
@@ -568,7 +605,27 @@ func c18ShapeAndBuildFamilies(r *core.Run, tg string, only string) {
 			os.RemoveAll(c.dir)
 			c.dir = ""
 		default:
-			c.goFiles = append([]string(nil), l.GoFiles...)
+			// a file is a file of the package for test_gen's purpose if the go tool selects it under BOTH
+			// tag sets: a test needs its function on the Go side (default tags) and on the Coq side (-tags goose)
+			c.oneSide = map[string]string{}
+			for _, f := range l.GoFiles {
+				if defaultFiles[c.dir][f] {
+					c.goFiles = append(c.goFiles, f)
+				} else {
+					c.oneSide[f] = "selected with the tag goose only"
+				}
+			}
+			for f := range defaultFiles[c.dir] {
+				found := false
+				for _, g := range l.GoFiles {
+					if g == f {
+						found = true
+					}
+				}
+				if !found {
+					c.oneSide[f] = "selected without the tag goose only"
+				}
+			}
 			sort.Strings(c.goFiles)
 			for _, f := range c.goFiles {
 				ts, err := c18ExpectedOfSource(f, c.files[f], false)
@@ -587,6 +644,9 @@ func c18ShapeAndBuildFamilies(r *core.Run, tg string, only string) {
 				how := "excluded"
 				if s.Selected {
 					how = "selected"
+				}
+				if c.oneSide[s.Name] != "" {
+					how = c.oneSide[s.Name]
 				}
 				selection[s.Mechanism+" | "+s.Name[strings.IndexAny(s.Name, "_.="):]+" | "+strings.ReplaceAll(s.Header, "\n", " ⏎ ")] = how
 			}
@@ -710,6 +770,11 @@ func c18ShapeAndBuildFamilies(r *core.Run, tg string, only string) {
 					exp = nil
 				}
 			}
+			if c.oneSide[s.Name] != "" {
+				// in the package with or without the tag goose, not both: its functions exist on one side only,
+				// one Go AND one Coq test per test function is impossible, so neither output has a test for them
+				how = "selected-under-one-tag-set-only"
+			}
 			r.Distinct("build-constraint/" + s.Mechanism + "/" + s.Header + "/" + s.Name[strings.IndexAny(s.Name, "_.="):])
 			r.Count("build_constraint_files_judged/"+s.Mechanism+"/"+how, 1)
 			r.Count("build_constraint_files_judged_by_tag_class/"+s.TagClass, 1)
@@ -720,10 +785,20 @@ func c18ShapeAndBuildFamilies(r *core.Run, tg string, only string) {
 					kinds = append(kinds, "coq-Fail-marking-wrong")
 				}
 			}
+			if how == "selected-under-one-tag-set-only" && len(kinds) > 0 {
+				switch {
+				case len(g) > 0 && len(q) == 0:
+					kinds = []string{"go-tests-without-coq-counterpart"}
+				case len(q) > 0 && len(g) == 0:
+					kinds = []string{"coq-tests-without-go-counterpart"}
+				default:
+					kinds = []string{"tests-for-functions-one-side-does-not-have"}
+				}
+			}
 			for _, k := range c18Collapse(kinds) {
 				clean = false
 				explained[s.Name] = true
-				add(c18BuildSig+s.Mechanism+"/"+how+":"+k, fmt.Sprintf("file %s with constraint [%s] (class %s) is %s (go list -tags goose reports GoFiles %v): %s; its test functions %v, of these in the -go output %v, in the -coq output %v",
+				add(c18BuildSig+s.Mechanism+"/"+how+":"+k, fmt.Sprintf("file %s with constraint [%s] (class %s) is %s (GoFiles under both tag sets %v): %s; its test functions %v, of these in the -go output %v, in the -coq output %v",
 					s.Name, strings.ReplaceAll(s.Header, "\n", " ⏎ "), s.TagClass, strings.ReplaceAll(how, "-", " "), c.goFiles, k, s.Tests, g, q))
 			}
 		}
@@ -806,6 +881,9 @@ func c18ShapeAndBuildFamilies(r *core.Run, tg string, only string) {
 								how := "excluded-by-go-tool"
 								if s.Selected {
 									how = "selected-by-go-tool"
+								}
+								if c.oneSide[s.Name] != "" {
+									how = "selected-under-one-tag-set-only"
 								}
 								sigs[c18BuildSig+s.Mechanism+"/"+how+":go-file-does-not-compile"] = fmt.Sprintf("file %s with constraint [%s] (class %s): ", s.Name, strings.ReplaceAll(s.Header, "\n", " ⏎ "), s.TagClass)
 							}
